@@ -621,6 +621,8 @@ class Interp:
             x = m.group(1)
             if at.get(f'truthy({x})') is True:
                 return False
+            if re.match(r'(min|max|len|sum|str|repr|list|dict|set|tuple|sorted|bool|int|float|abs|round)\(', x) and x.endswith(')'):
+                return False       # results of these builtins are never None
             for kk, vv in at.items():
                 if vv is True and (kk.startswith(f'isinstance({x}, ') or kk.startswith(f'eq({x}, ')):
                     if kk.startswith('eq(') and kk.endswith(', None)'):
@@ -1272,9 +1274,16 @@ def completions(path: Path, patterns: dict, entail: Optional[Callable[[str], Opt
     names = list(patterns)
     fixed = {}
     free = []
+    domains = {}
     for n in names:
         pat = patterns[n]
-        rx, key = (pat, None) if isinstance(pat, str) else pat
+        if isinstance(pat, str):
+            rx, key, dom = pat, None, (False, True)
+        elif len(pat) == 2:
+            rx, key, dom = pat[0], pat[1], (False, True)
+        else:
+            rx, key, dom = pat
+        domains[n] = dom
         v = path.atom(rx)
         if v is None and key is not None and entail is not None:
             v = entail(key)
@@ -1282,8 +1291,8 @@ def completions(path: Path, patterns: dict, entail: Optional[Callable[[str], Opt
             free.append(n)
         else:
             fixed[n] = v
-    for mask in range(1 << len(free)):
+    import itertools
+    for combo in itertools.product(*[domains[n] for n in free]):
         val = dict(fixed)
-        for i, n in enumerate(free):
-            val[n] = bool(mask >> i & 1)
+        val.update(dict(zip(free, combo)))
         yield val
